@@ -45,6 +45,10 @@ def grid_strategy(kind, tier):
              "deform_after": draw(st.sampled_from([True, True, False])), "deform_key": draw(gen.block_keys),
              # PyElastica's finalize() re-binds every state array of a body to block memory: the grid may only hold the body
              "rebind_arrays": draw(st.booleans()),
+             # earlier life of the SAME grid object: 0-2 earlier body states, each followed by the calls an interaction makes
+             # per evaluation (position, velocity, force transfer), before the state under test is set
+             "earlier": draw(st.lists(gen.block_keys, max_size=2)),
+             "earlier_order": draw(st.sampled_from(["pos_vel", "vel_pos", "pos_only"])),
              "point": draw(st.lists(f(-3.0, 3.0), min_size=3, max_size=3)), "force_exp": draw(st.integers(-6, 6))}
         if kind.startswith("rod"):
             planar = kind.endswith("2d")
@@ -91,6 +95,15 @@ def build_grid(case):
                                                   surface_grid_density_for_largest_element=case["density"],
                                                   with_cap=(kind == "rod_surface_caps_3d"))
         if deform:
+            for ek in case.get("earlier", []):
+                se = dict(case["rod"])
+                se["key"] = int(ek)
+                se["shape_mode"] = "bent" if se["shape_mode"] == "straight" else se["shape_mode"]
+                oe = bodies.make_rod(se)
+                for nm in ("position_collection", "director_collection", "velocity_collection", "omega_collection", "lengths",
+                           "tangents", "mass"):
+                    getattr(rod, nm)[...] = getattr(oe, nm)
+                _exercise(g, rod, False, case.get("earlier_order", "pos_vel"))
             # a second generated state of the same rod (new centre line, directors, radii via stretch, velocities, masses)
             spec2 = dict(case["rod"])
             spec2["key"] = int(case["deform_key"])
@@ -125,10 +138,32 @@ def build_grid(case):
         g = spi.RectangularPlaneForcingGrid(grid_dim=3, rigid_body=body, num_forcing_points_along_length=case["n"])
         dim = 3
     if deform:
+        for ek in case.get("earlier", []):
+            rng = np.random.Generator(np.random.Philox(key=int(ek)))
+            pe = dict(case["pose"], mode="generic", quat=list(rng.normal(size=4)), angle=float(rng.uniform(-3.0, 3.0)),
+                      center=list(rng.uniform(-2.0, 2.0, size=3)), omega=list(rng.uniform(-4.0, 4.0, size=3)), omega_zero=False)
+            bodies.apply_pose(body, pe)
+            _exercise(g, body, True, case.get("earlier_order", "pos_vel"))
         Q = bodies.apply_pose(body, case["pose"])  # pose set only after the grid exists
         if case.get("rebind_arrays"):
             _rebind(body)
     return g, body, dim, True, Q
+
+
+def _exercise(g, body, rigid, order):
+    """what an interaction object does with the grid at every evaluation (results are discarded)."""
+    if order == "vel_pos":
+        g.compute_lag_grid_velocity_field()
+        g.compute_lag_grid_position_field()
+    else:
+        g.compute_lag_grid_position_field()
+        if order != "pos_only":
+            g.compute_lag_grid_velocity_field()
+    n_nodes = body.position_collection.shape[1]
+    F = np.zeros((3, n_nodes))
+    T = np.zeros((3, 1 if rigid else body.n_elems))
+    g.transfer_forcing_from_grid_to_body(body_flow_forces=F, body_flow_torques=T,
+                                         lag_grid_forcing_field=np.ones((g.grid_dim, g.num_lag_nodes)))
 
 
 def pad3(a):
@@ -206,6 +241,8 @@ def _body(case, ctx):
         offaxis = p["planar"] or np.count_nonzero(np.abs(Qm) > 1e-6) > 5
         nontriv = ang >= 0.1 and offaxis and p["mode"] == "generic"
         labels = [case["grid"], "pose_" + p["mode"], "reposed_after_grid_construction" if case.get("deform_after") else "posed_before"]
+        if case.get("deform_after") and case.get("earlier"):
+            labels.append(f"grid_had_{len(case['earlier'])}_earlier_states")
     else:
         r = case["rod"]
         nontriv = r["taper"] != "uniform" or case["grid"].endswith("caps_3d")
